@@ -130,6 +130,19 @@ static void small_floats(Rng& r, bool thorough)
 		float h1 = (float)r.real(-100, 100), h2 = (float)r.real(-1, 1); glm::uint ph = glm::packHalf2x16(glm::vec2(h1, h2)); if ((ph & 0xffff) != glm::packHalf1x16(h1) || (ph >> 16) != glm::packHalf1x16(h2)) tfail("packHalf2x16", "layout (first component in the least significant bits)", str(h1) + "," + str(h2), "", hex(ph));
 		glm::uint64 p4 = glm::packHalf4x16(glm::vec4(h1, h2, 1.f, 2.f)); if ((p4 & 0xffff) != glm::packHalf1x16(h1) || ((p4 >> 16) & 0xffff) != glm::packHalf1x16(h2) || (p4 >> 48) != glm::packHalf1x16(2.f)) tfail("packHalf4x16", "layout", str(h1) + "," + str(h2), "", hex(p4));
 		glm::u16vec3 pv = glm::packHalf(glm::vec3(h1, h2, 1.f)); if (pv.x != glm::packHalf1x16(h1) || pv.y != glm::packHalf1x16(h2)) tfail("packHalf", "vector overload differs from packHalf1x16", str(h1), "", ""); }
+	// generic templates packUnorm<uintType>(vec<L, floatType>) / unpackUnorm<floatType>(vec<L, uintType>) and the Snorm pair, every combination of
+	// float / double with 8-, 16- and 32-bit fields (32-bit fields need double): decoded value = code / max within half a quantisation step,
+	// end codes decode to exactly 0 / +-1, re-packing a decoded code is lossless
+#define GEN_U(FT, UT, NAME) { const long double mx = (long double)std::numeric_limits<UT>::max(); for (int i = 0; i < N / 8; ++i) { UT c = (UT)r.next(); if (i == 0) c = 0; if (i == 1) c = std::numeric_limits<UT>::max(); if (i == 2) c = (UT)(std::numeric_limits<UT>::max() - 1); if (i % 5 == 3) c = (UT)(std::numeric_limits<UT>::max() - (UT)(r.next() & 0x7f)); \
+		glm::vec<2, UT> pv(c, (UT)7); glm::vec<2, FT> d = glm::unpackUnorm<FT>(pv); ++cases; long double want = (long double)c / mx; \
+		if (fabsl((long double)d.x - want) > 0.25L / mx + 2 * (long double)std::numeric_limits<FT>::epsilon() || (c == std::numeric_limits<UT>::max() && d.x != (FT)1) || (c == 0 && d.x != (FT)0)) tfail(NAME, "decoded value", str((double)c), str((double)want), str((double)d.x)); \
+		glm::vec<2, UT> back = glm::packUnorm<UT>(d); if (back.x != c || back.y != (UT)7) tfail(NAME, "re-pack of a decoded code", str((double)c), str((double)c), str((double)back.x)); } }
+#define GEN_S(FT, IT, NAME) { const long double mx = (long double)std::numeric_limits<IT>::max(); for (int i = 0; i < N / 8; ++i) { IT c = (IT)r.next(); if (c == std::numeric_limits<IT>::min()) c = 0; if (i == 1) c = std::numeric_limits<IT>::max(); if (i == 2) c = (IT)(-std::numeric_limits<IT>::max()); if (i % 5 == 3) c = (IT)(std::numeric_limits<IT>::max() - (IT)(r.next() & 0x3f)); if (i % 5 == 4) c = (IT)(-(std::numeric_limits<IT>::max() - (IT)(r.next() & 0x3f))); if (c == std::numeric_limits<IT>::min()) c = (IT)1; /* the most negative code is not canonical */ \
+		glm::vec<2, IT> pv(c, (IT)-3); glm::vec<2, FT> d = glm::unpackSnorm<FT>(pv); ++cases; long double want = (long double)c / mx; \
+		if (fabsl((long double)d.x - want) > 0.25L / mx + 2 * (long double)std::numeric_limits<FT>::epsilon() || (c == std::numeric_limits<IT>::max() && d.x != (FT)1) || (c == -std::numeric_limits<IT>::max() && d.x != (FT)-1)) tfail(NAME, "decoded value", str((double)c), str((double)want), str((double)d.x)); \
+		glm::vec<2, IT> back = glm::packSnorm<IT>(d); if (back.x != c || back.y != (IT)-3) tfail(NAME, "re-pack of a decoded code", str((double)c), str((double)c), str((double)back.x)); } }
+	GEN_U(float, glm::uint8, "unpackUnorm<float>(u8vec)") GEN_U(float, glm::uint16, "unpackUnorm<float>(u16vec)") GEN_U(double, glm::uint8, "unpackUnorm<double>(u8vec)") GEN_U(double, glm::uint16, "unpackUnorm<double>(u16vec)") GEN_U(double, glm::uint32, "unpackUnorm<double>(u32vec)")
+	GEN_S(float, glm::int8, "unpackSnorm<float>(i8vec)") GEN_S(float, glm::int16, "unpackSnorm<float>(i16vec)") GEN_S(double, glm::int8, "unpackSnorm<double>(i8vec)") GEN_S(double, glm::int16, "unpackSnorm<double>(i16vec)") GEN_S(double, glm::int32, "unpackSnorm<double>(i32vec)")
 	std::lock_guard<std::mutex> l(g_mu); count("small floats / shared exponent / RGBM / templates", cases);
 }
 // ---- scalar pack functions over float patterns: monotone + half a step  (thorough: every non-NaN pattern)
